@@ -21,7 +21,7 @@ META = {
              "missing cells compared exactly, values within rounding. Non-trivial: the new common differs from the old "
              "one and the cube has >=2 non-empty cells; distinct by (content hash, encoding)"),
     "require": {t: ["enc:to_absent_value", "enc:to_empty_value_inside", "enc:to_frequent", "enc:renormalised",
-                    "agg:count", "agg:mean", "class:w=scalar", "class:ndims=3"] for t in ("quick", "thorough")},
+                    "agg:count", "agg:mean", "class:w=scalar", "class:ndims=3", "enc:in_place_on_a_used_cube"] for t in ("quick", "thorough")},
     "assumptions": ["every encoding uses the same explicit cube shape (extent+1 per dimension) so that outputs are comparable",
                     "re-encoding is done with the library's own shift_common; if its dense result differs from the original the re-encoding itself is reported (C06 reports the same defect at the operation)"],
 }
@@ -128,6 +128,30 @@ def judge(ctx, case):
                 ctx.violation("value-changes:%s" % aggr.feature_key(case, agg, "ccube"),
                               "%s: cell %r is %r under commons %r but %r under commons %r"
                               % (agg, pos, a[pos], case["commons"], b[pos], list(enc)), dict(case, enc=list(enc)))
+                return
+    # the same cube OBJECT, with one of its dimensions re-encoded in place between two evaluations
+    live = [x.copy() for x in base_dims]
+    cube = catii.ccube(live, interacting_shape=shape)
+    first = outputs(cube, case)
+    d = int(rng.integers(0, len(live)))
+    cand2d = [i for i, a in enumerate(dense) if a.ndim > 1]
+    if cand2d and rng.random() < 0.7:
+        d = cand2d[int(rng.integers(0, len(cand2d)))]
+    v = int(rng.integers(0, case["extents"][d] + 1))
+    live[d].shift_common(v)
+    if rng.random() < 0.3:
+        live[d].shift_common()
+    second = outputs(cube, case)
+    ctx.count("enc:in_place_on_a_used_cube")
+    for agg in aggr.SHARED:
+        a0, a1, a2 = numpy.asarray(base[agg]), numpy.asarray(first[agg]), numpy.asarray(second[agg])
+        ctx.evaluation(hh + "inplace%d:%d" % (d, v) + agg, v != case["commons"][d] and nonempty >= 2)
+        for label, b in (("first evaluation", a1), ("evaluation after re-encoding dimension %d in place to common %d" % (d, v), a2)):
+            if a0.shape != b.shape or not numpy.array_equal(numpy.isnan(a0), numpy.isnan(b)) or \
+                    not numpy.all(numpy.abs(a0[~numpy.isnan(a0)] - b[~numpy.isnan(b)]) <= 2 * tols[agg]):
+                ctx.violation("in-place-reencoding-on-used-cube:%s" % aggr.feature_key(case, agg, "ccube"),
+                              "%s of the same cube object differs from the original encoding's output (%s)" % (label, agg),
+                              dict(case, enc=[d, v]))
                 return
     if ctx.evals % 900 < 40 and len(ctx.samples) < 4:
         ctx.sample({"dense": dense, "original_commons": case["commons"], "encodings_tried": len(encodings),
